@@ -14,6 +14,7 @@ import XlModel.Lemmas.SaveGrid2
 import XlModel.Lemmas.SaveGrid3
 import XlModel.Lemmas.SaveGrid4
 import XlModel.Lemmas.SaveCols2
+import XlModel.Lemmas.SaveCols3
 import XlModel.Lemmas.SaveBook
 import XlModel.Lemmas.SaveCols
 import XlModel.Generated.FactsC01
@@ -229,8 +230,15 @@ theorem cols_merge_preserves_ranges (lo : Nat) (l : List SaveCols.Col) (h : Save
   rw [SaveCols.sortCols_ranges lo l h]
   exact ⟨SaveCols.look_mergeSorted_ranges lo l h, SaveCols.ranges_mergeSorted lo l h⟩
 
-/-- **open_save_obs**: for every workbook state satisfying `Inv` (every worksheet dense, `<cols>` sorted
-disjoint ranges, free text XML-legal — which `stored_xml_legal` gives for everything `SetCellStr` stores)
+/-- column clause for the list the setters leave in memory (not sorted: `flatCols` appends): for
+well-formed, pairwise non-overlapping ranges in any order, `mergeExpandedCols` (sort + merge) preserves
+what every column resolves to and yields a well-formed list again. -/
+theorem cols_merge_preserves_unsorted (l : List SaveCols.Col) (h : SaveCols.Wf l) :
+    (∀ c, SaveCols.look (SaveCols.mergeCols l) c = SaveCols.look l c) ∧ SaveCols.Wf (SaveCols.mergeCols l) :=
+  SaveCols.mergeCols_wf l h
+
+/-- **open_save_obs**: for every workbook state satisfying `Inv` (every worksheet dense, `<cols>` well-formed
+pairwise non-overlapping ranges in any order — what `flatCols` leaves —, free text XML-legal — which `stored_xml_legal` gives for everything `SetCellStr` stores)
 and every XML layer that returns legal text unchanged, save + open succeeds, the result satisfies `Inv`
 again, and the modelled observation is identical: sheet list with order, names and visibility, active
 tab, defined names (name, refersTo, comment, scope), shared strings, and per worksheet the content at
@@ -296,7 +304,7 @@ theorem inv_witness :
   · intro s hs
     simp only [List.mem_singleton] at hs
     subst hs
-    refine ⟨⟨by decide, ?_⟩, ⟨0, by simp [SaveCols.RangesFrom]⟩, (by unfold SaveBook.LegalS; decide), ?_⟩
+    refine ⟨⟨by decide, ?_⟩, ⟨by simp, by simp⟩, (by unfold SaveBook.LegalS; decide), ?_⟩
     · intro i hi
       have : i = 0 := by simpa using hi
       subst this
